@@ -7,6 +7,8 @@ import (
 	"go/token"
 	"go/types"
 	"sort"
+
+	"golang.org/x/tools/go/ssa"
 )
 
 func init() {
@@ -263,6 +265,83 @@ func init() {
 			})
 			for _, p := range keys {
 				r.Check(visited[p], "tars2go/parse."+resolver.Name.Name, "child "+p.f+" of kind "+p.k, built[p], "the resolver calls itself on ty."+p.f+" under ty.Type == token."+p.k, "the parser builds a %s type with child %s, but %s does not visit ty.%s when ty.Type == token.%s: a named type used there is never resolved (an enum is emitted as a struct: the generated code does not compile; a type of another module gets no import; an undefined name gets no diagnostic)", p.k, p.f, resolver.Name.Name, p.f, p.k)
+			}
+		}})
+}
+
+func init() {
+	register(&Rule{ID: "C13.R11", Props: []string{"C13", "C14", "C15"}, Min: 8, Needs: NeedMain,
+		Doc: "Refresh installs the set it is given on every path: in the Refresh method of every selector, each receiver field that Refresh assigns (the membership map, the member list / ring) is assigned on EVERY path from the entry to a return — there is no path that returns with the previous member state left in place (a `nothing changed` shortcut that compares only part of an endpoint keeps the old weights, ports and static-weight cycle: Select then returns endpoints that are not in the current set, or with the previous proportions)",
+		Run: func(r *R) {
+			for sp, nts := range selectorTypes(r.w) {
+				for _, nt := range nts {
+					var fn *ssa.Function
+					for _, f := range r.w.Funcs(sp) {
+						if f.Parent() == nil && f.Name() == "Refresh" && f.Signature.Recv() != nil && namedOf(f.Signature.Recv().Type()) == nt {
+							fn = f
+						}
+					}
+					if fn == nil || len(fn.Blocks) == 0 {
+						r.AnchorMissing(nt.Obj().Pkg().Name() + "." + nt.Obj().Name() + ".Refresh")
+						continue
+					}
+					recv := fn.Params[0]
+					// receiver fields stored directly in Refresh, and the blocks that store them
+					stores := map[string]map[*ssa.BasicBlock]bool{}
+					pos := map[string]token.Pos{}
+					eachInstr(fn, func(in ssa.Instruction) {
+						st, ok := in.(*ssa.Store)
+						if !ok {
+							return
+						}
+						fa, ok := st.Addr.(*ssa.FieldAddr)
+						if !ok || strip(fa.X, false) != ssa.Value(recv) {
+							return
+						}
+						name := fa.X.Type().Underlying().(*types.Pointer).Elem().Underlying().(*types.Struct).Field(fa.Field).Name()
+						if stores[name] == nil {
+							stores[name] = map[*ssa.BasicBlock]bool{}
+							pos[name] = st.Pos()
+						}
+						stores[name][in.Block()] = true
+					})
+					var names []string
+					for n := range stores {
+						names = append(names, n)
+					}
+					sort.Strings(names)
+					if len(names) == 0 {
+						r.Bad(fname(fn), "member state", fn.Pos(), "Refresh assigns no field of the selector: the set it is given is not installed")
+						continue
+					}
+					for _, n := range names {
+						// is a return reachable from the entry without passing a block that stores n?
+						seen := map[*ssa.BasicBlock]bool{}
+						var escape *ssa.BasicBlock
+						var walk func(b *ssa.BasicBlock)
+						walk = func(b *ssa.BasicBlock) {
+							if seen[b] || stores[n][b] || escape != nil {
+								return
+							}
+							seen[b] = true
+							if len(b.Instrs) > 0 {
+								if _, isRet := b.Instrs[len(b.Instrs)-1].(*ssa.Return); isRet {
+									escape = b
+									return
+								}
+							}
+							for _, s := range b.Succs {
+								walk(s)
+							}
+						}
+						walk(fn.Blocks[0])
+						p := pos[n]
+						if escape != nil && len(escape.Instrs) > 0 && escape.Instrs[len(escape.Instrs)-1].Pos().IsValid() {
+							p = escape.Instrs[len(escape.Instrs)-1].Pos()
+						}
+						r.Check(escape == nil, fname(fn), "field "+n+" assigned on every path", p, "every path from the entry to a return passes an assignment of "+n, "a path through Refresh returns without assigning %s: the previous member state stays in place for a set that Refresh only partly compared (endpoints, weights or ports of the old set are still selected)", n)
+					}
+				}
 			}
 		}})
 }
